@@ -722,6 +722,12 @@ def _c19_attr_rename(rec):
         return {f.name for c in ast.walk(t) if isinstance(c, ast.ClassDef) for f in c.body if isinstance(f, (ast.FunctionDef, ast.AsyncFunctionDef))} | \
                {n.id for c in ast.walk(t) if isinstance(c, ast.ClassDef) for st in c.body if isinstance(st, ast.Assign) for n in st.targets if isinstance(n, ast.Name)}
     gone = defs(tb) - defs(ta)
+    # per class as well: the method of one class is renamed, a subclass (or another class) keeps a method of that name, and `super().name()` / `obj.name()`
+    # still spell the old one
+    cb, ca = [c for c in ast.walk(tb) if isinstance(c, ast.ClassDef)], [c for c in ast.walk(ta) if isinstance(c, ast.ClassDef)]
+    if len(cb) == len(ca):
+        for x, y in zip(cb, ca):
+            gone |= defs(x) - defs(y)
     return any(isinstance(n, ast.Attribute) and n.attr in gone for n in ast.walk(ta))
 
 
